@@ -95,6 +95,9 @@ pub enum Cmd {
     NotifAnswer { peer: PeerId, accept: bool },
     /// from now on the user reacts to a stream-closed event by asking for the stream again at once
     NotifReopenOnClosed(bool),
+    /// from now on the user stops reading its handle for this long right after it was told that a stream closed (and after
+    /// its immediate re-request, if that is switched on); zero switches it off
+    NotifStallAfterClosed(Duration),
     /// answer a validation for `peer` after this long (whatever is pending then)
     NotifAnswerLater { peer: PeerId, accept: bool, after: Duration },
     /// stop polling the notification handle for this long (reader stall)
@@ -571,6 +574,7 @@ async fn node_main(
     let mut notif_stall_until: Option<Instant> = None;
     let mut notif_throttle = Duration::ZERO;
     let mut notif_reopen_on_closed = false;
+    let mut notif_stall_after_closed = Duration::ZERO;
     let mut delayed_validation: Vec<(Instant, PeerId, bool)> = Vec::new();
     loop {
         let next_due = delayed.iter().map(|d| d.0).chain(delayed_validation.iter().map(|d| d.0)).chain(notif_stall_until.iter().cloned()).min();
@@ -697,6 +701,7 @@ async fn node_main(
                     }
                     Cmd::NotifAnswerLater { peer, accept, after } => delayed_validation.push((Instant::now() + after, peer, accept)),
                     Cmd::NotifReopenOnClosed(on) => notif_reopen_on_closed = on,
+                    Cmd::NotifStallAfterClosed(d) => notif_stall_after_closed = d,
                     Cmd::NotifStall(d) => notif_stall_until = Some(Instant::now() + d),
                     Cmd::NotifThrottle(d) => notif_throttle = d,
                     Cmd::BitswapRespond { peer, entries } => { let _ = bs_cmd_tx.send((peer, entries)); }
@@ -764,6 +769,9 @@ async fn node_main(
                         if notif_reopen_on_closed {
                             let r = notif.as_mut().unwrap().open_substream(peer).await;
                             push(&log, index, ObsKind::NotifApi { what: format!("open {peer}"), ok: r.is_ok() });
+                        }
+                        if !notif_stall_after_closed.is_zero() {
+                            notif_stall_until = Some(Instant::now() + notif_stall_after_closed);
                         }
                     }
                     Some(NotificationEvent::NotificationStreamOpenFailure { peer, error }) => push(&log, index, ObsKind::NotifOpenFailure { peer, error: format!("{error:?}") }),
